@@ -100,7 +100,7 @@ def run_seq(spec, res):
         else:
             res['discharged'] += 1
             if n == 1 and eng.check3() == 'sat' and len(res['witnesses']) < 1:
-                res['witnesses'].append(case_of(eng.solver.model(), H, spec, "witness"))
+                res['witnesses'].append(case_of(eng.model(), H, spec, "witness"))
     if n == 0:
         res['harness_errors'].append(f"{spec}: no feasible path")
     res.absorb_engine(eng)
@@ -130,7 +130,7 @@ def case_of(model, H, spec, why):
 
 def emit(eng, H, run, spec, res, why):
     if eng.check3() == 'sat':
-        res['cex'].append(case_of(eng.solver.model(), H, spec, why))
+        res['cex'].append(case_of(eng.model(), H, spec, why))
     else:
         res['harness_errors'].append(f"{spec}: no model for {why}")
 
@@ -190,14 +190,14 @@ def run_direct(spec, res):
             if bad:
                 res['refuted'] += 1
                 if eng.check3() == 'sat':
-                    m = eng.solver.model()
+                    m = eng.model()
                     res['cex'].append({'kind': 'stream', 'data': rdrdrv.model_bytes(m, H['data']).hex(), 'mode': mode,
                                        'checks': ['frames', 'handler' if mode == 1 else 'errors'], 'expect_frames': [], 'min_payload': 0,
                                        'expect_handler': 1, 'expect_errors': 1, 'why': "; ".join(bad), 'dedup': f"direct:{cls}:{mode}"})
             else:
                 res['discharged'] += 1
                 if eng.check3() == 'sat' and len(res['witnesses']) < 2:
-                    m = eng.solver.model()
+                    m = eng.model()
                     res['witnesses'].append({'kind': 'stream', 'data': rdrdrv.model_bytes(m, H['data']).hex(), 'mode': mode,
                                              'checks': ['frames', 'handler' if mode == 1 else 'errors'], 'expect_frames': [], 'min_payload': 0,
                                              'expect_handler': 1, 'expect_errors': 1})
